@@ -61,3 +61,28 @@ package similarity
 //@   k1 > 0.0 && 0.0 <= b && b <= 1.0 && avgdl > 0.0 && dl >= 1.0 && f >= 1.0 ==> tfspec(k1, b, avgdl, dl, f) == tfmsg(k1, b, avgdl, dl, f)
 //@ lemma idf_positive uses=ln_mono,ln_one: forall n real, N real :: 0.0 < n && n <= N ==> idfspec(n, N) > 0.0
 //@ lemma idf_rarer_weighs_more uses=ln_mono,ln_one: forall n real, m real, N real :: 0.0 < n && n < m && m <= N ==> idfspec(n, N) > idfspec(m, N)
+
+// ---- composite: (sum of the parts' scores) * boost ----
+// ssum(a, o, h, k) = sum over i < k of h[a[o+i]]   (a: element array of the slice, h: the Score field map)
+//@ spec fn rec ssum(a map[int]ref, o int, h map[ref]real, k int) real = ite(k <= 0, 0.0, ssum(a, o, h, k - 1) + h[a[o + k - 1]])
+
+//@ func CompositeSumScorer.ScoreComposite
+//@   nopanic
+//@   requires forall i int :: 0 <= i && i < len(constituents) ==> constituents[i] != nil
+//@   ensures result == ssum(elems(constituents), off(constituents), fieldarr(constituents[0].Score), len(constituents)) * c.boost
+//@   loop 1
+//@     invariant rangeindex < len(constituents)
+//@     invariant rv == ssum(elems(constituents), off(constituents), fieldarr(constituents[0].Score), rangeindex + 1)
+
+//@ func CompositeSumScorer.ExplainComposite
+//@   nopanic
+//@   requires forall i int :: 0 <= i && i < len(constituents) ==> constituents[i] != nil
+//@   ensures result != nil && result.Value == ssum(elems(constituents), off(constituents), fieldarr(constituents[0].Score), len(constituents)) * c.boost
+//@   loop 1
+//@     invariant rangeindex < len(constituents)
+//@     invariant sum == ssum(elems(constituents), off(constituents), fieldarr(constituents[0].Score), rangeindex + 1)
+
+//@ func ConstantScorer.ScoreComposite
+//@   ensures result == c
+//@ func ConstantScorer.ExplainComposite
+//@   ensures result != nil && result.Value == c
